@@ -1265,8 +1265,17 @@ func ruleMove(c *Ctx) {
 			}
 			l.add("R-MOVE", b.Name, "move: "+key, b.posOf(pos), v, f, true)
 		}
-		chk("source get precedes remove precedes add", b.instrDominates(g, r) && b.instrDominates(r, a),
-			"get dominates remove dominates add", "get/remove/add are not in dominance order", r)
+		// "precedes": dominates, or — when the remove hangs on the get's success and its error is
+		// judged at a later merge — the later instruction lies behind the remove's success
+		precedes := func(x ssa.CallInstruction, y ssa.Instruction) bool {
+			if b.instrDominates(x, y) {
+				return true
+			}
+			ok, _ := b.successDominates(x, y)
+			return ok
+		}
+		chk("source get precedes remove precedes add", precedes(g, r) && precedes(r, a),
+			"get precedes remove precedes add on every path", "get/remove/add are not in dominance order", r)
 		chk("remove targets what get read", sameContainerAndKey(g.Common(), r.Common()),
 			"same SSA container value and key value", "remove uses a different container or key than the source get", r)
 		val := a.Common().Args[1]
@@ -1285,7 +1294,7 @@ func ruleMove(c *Ctx) {
 		if ex, ok := a.Common().Value.(*ssa.Extract); ok {
 			if fc, ok := ex.Tuple.(*ssa.Call); ok {
 				if b.isFindObjectCall(&fc.Call) {
-					if b.instrDominates(r, fc) {
+					if precedes(r, fc) {
 						destOK, destWhy = true, "findObject for the destination at "+b.posOf(fc)+" is dominated by the remove"
 					}
 				}
@@ -1570,6 +1579,53 @@ func ruleSuccess(c *Ctx) {
 				if st, ok := i.(*ssa.Store); ok {
 					if p, isP := st.Addr.(*ssa.Parameter); isP && isNamed(derefPtr(p.Type()), "container") {
 						effect[st.Block()] = "root replacement"
+					}
+				}
+				// the root replaced by a helper that is handed the root slot: every return of the
+				// helper that reports success lies behind its store into the slot
+				if call, ok := i.(*ssa.Call); ok {
+					g := call.Call.StaticCallee()
+					if g == nil || g.Pkg != b.Lib || len(g.Blocks) == 0 {
+						return
+					}
+					for ai, a := range call.Call.Args {
+						p, isP := a.(*ssa.Parameter)
+						if !isP || !isNamed(derefPtr(p.Type()), "container") || ai >= len(g.Params) {
+							continue
+						}
+						if _, isPtr := p.Type().Underlying().(*types.Pointer); !isPtr {
+							continue
+						}
+						var stores []*ssa.Store
+						allInstrs(g, func(j ssa.Instruction) {
+							if st, ok := j.(*ssa.Store); ok && st.Addr == ssa.Value(g.Params[ai]) {
+								stores = append(stores, st)
+							}
+						})
+						if len(stores) == 0 {
+							continue
+						}
+						gei := errResultIndex(g)
+						all := true
+						for _, r := range liveReturns(g) {
+							if gei >= 0 && b.definitelyNonNilErr(retVal(r, gei), r.Block(), 0) {
+								continue
+							}
+							dom := false
+							for _, st := range stores {
+								if b.instrDominates(st, r) {
+									dom = true
+								}
+							}
+							if !dom {
+								all = false
+							}
+						}
+						if all {
+							// the effect holds on the success edge of the call; the handler's own error
+							// test of the call guards the rest
+							effect[call.Block()] = "root replacement (in " + fname(g) + ")"
+						}
 					}
 				}
 			})
